@@ -484,3 +484,263 @@ Proof.
   { destruct h as [[k hs] f c g st]. cbn in *. rewrite !app_length, Hs. lia. }
   rewrite Hh. lia.
 Qed.
+
+(* ================================================================ strictness: the decoder accepts only canonical bytes *)
+
+Definition codec_strict {A} (c : codec A) : Prop :=
+  forall bs a r, dec c bs = Some (a, r) -> bs = enc c a ++ r.
+
+Lemma take_some n bs a r : take n bs = Some (a, r) -> bs = a ++ r /\ length a = n.
+Proof.
+  unfold take. destruct (Nat.ltb_spec (length bs) n) as [H|H]; [discriminate|].
+  intro E. injection E as <- <-. split; [symmetry; apply firstn_skipn | apply firstn_length_le, H].
+Qed.
+
+Lemma omap_some {A B} (f : A -> B) o b r : omap f o = Some (b, r) -> exists a, o = Some (a, r) /\ b = f a.
+Proof. destruct o as [[a r']|]; simpl; [|discriminate]. intro E. injection E as <- <-. eauto. Qed.
+
+Lemma snoc_decompose {A} (l : list A) w : length l = S w -> exists l' b, l = l' ++ [b] /\ length l' = w.
+Proof.
+  intro H. destruct (exists_last (l := l)) as [l' [b E]]; [intro E; subst; discriminate|].
+  exists l', b. split; [exact E|]. subst l. rewrite app_length in H. simpl in H. lia.
+Qed.
+
+Lemma N_to_be_be_to_N w : forall l, length l = w -> N_to_be w (be_to_N l) = l.
+Proof.
+  induction w as [|w IH]; intros l H.
+  - destruct l; [reflexivity | discriminate].
+  - destruct (snoc_decompose l w H) as [l' [b [-> Hl]]].
+    unfold be_to_N. rewrite be_to_N_acc_snoc. fold (be_to_N l'). cbn [N_to_be].
+    pose proof (to_N_lt_256 b) as Hb.
+    replace ((be_to_N l' * 256 + Byte.to_N b) / 256) with (be_to_N l').
+    2:{ rewrite N.div_add_l by lia. rewrite N.div_small by exact Hb. lia. }
+    rewrite (IH l' Hl). f_equal. f_equal.
+    rewrite <- (b8_to_N b) at 2. apply to_N_inj. rewrite !to_N_b8.
+    rewrite N.add_comm, N.mod_add by lia. reflexivity.
+Qed.
+
+Lemma c_fix_strict n : codec_strict (c_fix n).
+Proof. intros bs a r H. simpl in *. apply take_some in H. apply H. Qed.
+
+Lemma c_nat_strict : codec_strict c_nat.
+Proof. intros bs a r H. simpl in *. apply enc_dec_nat, H. Qed.
+
+Lemma c_uint_strict w : codec_strict (c_uint w).
+Proof.
+  intros bs a r H. simpl in *. apply omap_some in H. destruct H as [l [H ->]].
+  apply take_some in H. destruct H as [-> Hl]. rewrite (N_to_be_be_to_N w l Hl). reflexivity.
+Qed.
+
+Lemma dec_dyn_strict bs b r : dec_dyn bs = Some (b, r) -> bs = enc_dyn b ++ r.
+Proof.
+  unfold dec_dyn, enc_dyn. destruct (take 4 bs) as [[l rest]|] eqn:E; [|discriminate].
+  apply take_some in E. destruct E as [-> Hl].
+  destruct (N.ltb_spec (nlength rest) (be_to_N l)) as [H|H]; [discriminate|].
+  intro E. injection E as <- <-.
+  assert (Hn : (N.to_nat (be_to_N l) <= length rest)%nat) by (unfold nlength in H; lia).
+  assert (Hb : nlength (firstn (N.to_nat (be_to_N l)) rest) = be_to_N l).
+  { unfold nlength. rewrite firstn_length_le by exact Hn. apply N2Nat.id. }
+  rewrite Hb, (N_to_be_be_to_N 4 l Hl), <- app_assoc, firstn_skipn. reflexivity.
+Qed.
+
+Lemma c_dyn_strict : codec_strict c_dyn.
+Proof. intros bs a r H. apply dec_dyn_strict, H. Qed.
+
+Lemma c_opt_strict {A} (c : codec A) : codec_strict c -> codec_strict (c_opt c).
+Proof.
+  intros Hc bs o r H. cbn [dec c_opt] in H. destruct bs as [|t bs]; [discriminate|].
+  destruct t; try discriminate.
+  - injection H as <- <-. reflexivity.
+  - apply omap_some in H. destruct H as [a [H ->]]. apply Hc in H. subst bs. reflexivity.
+Qed.
+
+Lemma c_pair_strict {A B} (ca : codec A) (cb : codec B) : codec_strict ca -> codec_strict cb -> codec_strict (c_pair ca cb).
+Proof.
+  intros Ha Hb bs [a b] r H. cbn [dec c_pair] in H.
+  destruct (dec ca bs) as [[a' r1]|] eqn:E1; [|discriminate].
+  apply omap_some in H. destruct H as [b' [E2 E]]. injection E as -> ->.
+  apply Ha in E1. apply Hb in E2. subst. cbn. rewrite <- app_assoc. reflexivity.
+Qed.
+
+Lemma c_map_strict {A B} (to : B -> A) (from : A -> B) (c : codec A) :
+  (forall a, to (from a) = a) -> codec_strict c -> codec_strict (c_map to from c).
+Proof.
+  intros Htf Hc bs b r H. cbn [dec c_map] in H. apply omap_some in H. destruct H as [a [H ->]].
+  apply Hc in H. subst bs. cbn. rewrite Htf. reflexivity.
+Qed.
+
+Lemma curve_of_tag_some t k : curve_of_tag (Byte.to_N t) = Some k -> t = b8 (curve_tag k).
+Proof.
+  intro H. rewrite <- (b8_to_N t). f_equal.
+  destruct (Byte.to_N t) as [|p]; [injection H as <-; reflexivity|].
+  destruct p as [[|[]|]|[[]|[]|]|]; try discriminate; injection H as <-; reflexivity.
+Qed.
+
+Lemma c_pkh_strict : codec_strict c_pkh.
+Proof.
+  intros bs [k h] r H. cbn [dec c_pkh] in H. destruct bs as [|t bs]; [discriminate|].
+  destruct (curve_of_tag (Byte.to_N t)) as [k'|] eqn:E; [|discriminate].
+  apply omap_some in H. destruct H as [h' [H E2]]. injection E2 as -> ->.
+  apply take_some in H. destruct H as [-> _]. apply curve_of_tag_some in E. subst t. reflexivity.
+Qed.
+
+Lemma c_pk_strict : codec_strict c_pk.
+Proof.
+  intros bs [k h] r H. cbn [dec c_pk] in H. destruct bs as [|t bs]; [discriminate|].
+  destruct (curve_of_tag (Byte.to_N t)) as [k'|] eqn:E; [|discriminate].
+  apply omap_some in H. destruct H as [h' [H E2]]. injection E2 as -> ->.
+  apply take_some in H. destruct H as [-> _]. apply curve_of_tag_some in E. subst t. reflexivity.
+Qed.
+
+Lemma c_address_strict : codec_strict c_address.
+Proof.
+  intros bs a r H. cbn [dec c_address] in H. destruct bs as [|t bs]; [discriminate|].
+  destruct t; try discriminate.
+  - apply omap_some in H. destruct H as [k [H ->]]. apply c_pkh_strict in H. subst bs. reflexivity.
+  - destruct (take 20 bs) as [[h rest]|] eqn:E; [|discriminate].
+    destruct rest as [|z rest]; [discriminate|]. destruct z; try discriminate.
+    injection H as <- <-. apply take_some in E. destruct E as [-> _]. cbn. rewrite <- app_assoc. reflexivity.
+  - destruct (take 20 bs) as [[h rest]|] eqn:E; [|discriminate].
+    destruct rest as [|z rest]; [discriminate|]. destruct z; try discriminate.
+    injection H as <- <-. apply take_some in E. destruct E as [-> _]. cbn. rewrite <- app_assoc. reflexivity.
+Qed.
+
+Lemma find_name_of_tag_spec : forall t name, find_tag spec_reserved t = Some name -> find_name spec_reserved name = Some t /\ t < 10.
+Proof.
+  intros t name H. unfold spec_reserved in H. cbn [find_tag] in H.
+  repeat match type of H with
+  | (if ?a =? t then _ else _) = _ =>
+      let E := fresh "E" in
+      destruct (N.eqb_spec a t) as [E|E];
+      [subst t; injection H as <-; split; reflexivity |]
+  end.
+  discriminate.
+Qed.
+
+Lemma c_entrypoint_strict : codec_strict c_entrypoint.
+Proof.
+  intros bs name r H. cbn [dec enc c_entrypoint] in *. unfold dec_entrypoint, enc_entrypoint in *.
+  destruct bs as [|t bs]; [discriminate|].
+  assert (Htag : forall bs', match find_tag spec_reserved (Byte.to_N t) with Some nm => Some (nm, bs') | None => None end = Some (name, r) ->
+                 t :: bs' = match find_name spec_reserved name with Some t0 => [b8 t0] | None => xff :: b8 (nlength name) :: name end ++ r).
+  { intros bs' H'. destruct (find_tag spec_reserved (Byte.to_N t)) as [nm|] eqn:E; [|discriminate].
+    injection H' as -> ->. destruct (find_name_of_tag_spec _ _ E) as [E2 _]. rewrite E2, b8_to_N. reflexivity. }
+  destruct t; try (apply Htag; exact H).
+  destruct bs as [|l bs]; [apply (Htag []); exact H|].
+  destruct (take (N.to_nat (Byte.to_N l)) bs) as [[nm r']|] eqn:E; [|discriminate].
+  destruct (find_name spec_reserved nm) eqn:En; [discriminate|].
+  destruct ((1 <=? length nm)%nat && (length nm <=? 31)%nat); [|discriminate].
+  injection H as -> ->. rewrite En. apply take_some in E. destruct E as [-> Hl].
+  unfold nlength. rewrite Hl, N2Nat.id, b8_to_N. reflexivity.
+Qed.
+
+Lemma dec_many_strict {A} (e : A -> bytes) (d : bytes -> option (A * bytes)) :
+  (forall bs a r, d bs = Some (a, r) -> bs = e a ++ r) ->
+  forall fuel bs l, dec_many d fuel bs = Some l -> bs = concat (map e l).
+Proof.
+  intros Hd fuel. induction fuel as [|f IH]; intros bs l H.
+  - destruct bs; [injection H as <-; reflexivity | discriminate].
+  - destruct bs as [|x xs]; [injection H as <-; reflexivity|].
+    cbn [dec_many] in H. destruct (d (x :: xs)) as [[a r]|] eqn:E; [|discriminate].
+    destruct (dec_many d f r) as [l'|] eqn:E2; [|discriminate]. injection H as <-.
+    apply Hd in E. apply IH in E2. rewrite E, E2. reflexivity.
+Qed.
+
+Lemma c_msgs_strict : codec_strict c_msgs.
+Proof.
+  intros bs l r H. cbn [dec enc c_msgs] in *. unfold dec_msgs, enc_msgs in *.
+  destruct (dec_dyn bs) as [[blob r']|] eqn:E; [|discriminate].
+  destruct (dec_many dec_dyn (length blob) blob) as [l'|] eqn:E2; [|discriminate].
+  injection H as -> ->. apply dec_dyn_strict in E. apply (dec_many_strict enc_dyn) in E2; [|apply dec_dyn_strict].
+  subst blob. exact E.
+Qed.
+
+Lemma c_header_strict : codec_strict c_header.
+Proof.
+  apply c_map_strict.
+  - intros [s [f [c [g st]]]]. reflexivity.
+  - repeat apply c_pair_strict; try apply c_nat_strict. apply c_pkh_strict.
+Qed.
+
+Local Hint Resolve c_fix_strict c_nat_strict c_uint_strict c_dyn_strict c_pkh_strict c_pk_strict c_address_strict c_entrypoint_strict
+  c_msgs_strict c_header_strict : strict.
+Local Hint Extern 1 (codec_strict (c_opt _)) => apply c_opt_strict : strict.
+Local Hint Extern 1 (codec_strict (c_pair _ _)) => apply c_pair_strict : strict.
+
+Lemma c_reveal_strict : codec_strict c_reveal. Proof. unfold c_reveal. auto with strict. Qed.
+Lemma c_transaction_strict : codec_strict c_transaction. Proof. unfold c_transaction, c_params. auto 10 with strict. Qed.
+Lemma c_origination_strict : codec_strict c_origination. Proof. unfold c_origination. auto 10 with strict. Qed.
+Lemma c_delegation_strict : codec_strict c_delegation. Proof. unfold c_delegation. auto with strict. Qed.
+Lemma c_transfer_ticket_strict : codec_strict c_transfer_ticket. Proof. unfold c_transfer_ticket. auto 12 with strict. Qed.
+Lemma c_sr_execute_strict : codec_strict c_sr_execute. Proof. unfold c_sr_execute. auto 10 with strict. Qed.
+Lemma c_activate_strict : codec_strict c_activate. Proof. unfold c_activate. auto with strict. Qed.
+
+(* a decoded manager operation is in normal form and re-encodes to the bytes read *)
+Lemma dec_mop_strict tag bs op r :
+  dec_mop tag bs = Some (op, r) -> bs = enc_mop op ++ r /\ mop_tag op = tag /\ norm_mop op = op.
+Proof.
+  unfold dec_mop.
+  destruct (N.eq_dec tag 107) as [->|N1]; [|destruct (N.eq_dec tag 108) as [->|N2]; [|destruct (N.eq_dec tag 109) as [->|N3];
+    [|destruct (N.eq_dec tag 110) as [->|N4]; [|destruct (N.eq_dec tag 111) as [->|N5]; [|destruct (N.eq_dec tag 158) as [->|N6];
+    [|destruct (N.eq_dec tag 201) as [->|N7]; [|destruct (N.eq_dec tag 206) as [->|N8]]]]]]]].
+  - intro H. apply omap_some in H. destruct H as [[pk pr] [H ->]]. apply c_reveal_strict in H. auto.
+  - destruct (dec c_transaction bs) as [[[a [d p]] r']|] eqn:E; [|discriminate]. cbn [fst snd].
+    intro H. apply c_transaction_strict in E.
+    destruct (norm_params p) as [q|] eqn:En.
+    + injection H as <- <-. repeat split; [exact E|]. cbn. f_equal.
+      destruct p as [[ep v]|]; [|discriminate]. unfold norm_params in *.
+      destruct (bytes_eqb ep default_name && bytes_eqb v unit_value); [discriminate | reflexivity].
+    + destruct p as [x|]; [discriminate|]. injection H as <- <-. repeat split. exact E.
+  - intro H. apply omap_some in H. destruct H as [[b [dl [c s]]] [H ->]]. apply c_origination_strict in H. auto.
+  - intro H. apply omap_some in H. destruct H as [dl [H ->]]. apply c_delegation_strict in H. auto.
+  - intro H. apply omap_some in H. destruct H as [v [H ->]]. apply c_dyn_strict in H. auto.
+  - intro H. apply omap_some in H. destruct H as [[c [t [tk [a [d e]]]]] [H ->]]. apply c_transfer_ticket_strict in H. auto.
+  - intro H. apply omap_some in H. destruct H as [ms [H ->]]. apply c_msgs_strict in H. auto.
+  - intro H. apply omap_some in H. destruct H as [[rl [c p]] [H ->]]. apply c_sr_execute_strict in H. auto.
+  - (* unknown tag *)
+    destruct tag as [|p]; [discriminate|].
+    repeat (destruct p as [p|p|]; try discriminate; try (exfalso; lia)).
+Qed.
+
+Lemma byte_of_to_N t k : Byte.to_N t = k -> t = b8 k.
+Proof. intros <-. symmetry. apply b8_to_N. Qed.
+
+Lemma dec_content_strict bs c r : dec_content bs = Some (c, r) -> bs = enc_content c ++ r /\ normalise c = c.
+Proof.
+  unfold dec_content. destruct bs as [|t bs]; [discriminate|].
+  destruct (N.eq_dec (Byte.to_N t) 0) as [E0|N0]; [rewrite E0|destruct (N.eq_dec (Byte.to_N t) 4) as [E4|N4];
+    [rewrite E4|destruct (N.eq_dec (Byte.to_N t) 17) as [E17|N17]; [rewrite E17|]]].
+  - intro H. apply omap_some in H. destruct H as [l [H ->]]. apply (c_uint_strict 4) in H. subst bs.
+    apply byte_of_to_N in E0. subst t. split; reflexivity.
+  - intro H. apply omap_some in H. destruct H as [[p s] [H ->]]. apply c_activate_strict in H. subst bs.
+    apply byte_of_to_N in E4. subst t. split; reflexivity.
+  - intro H. apply omap_some in H. destruct H as [a [H ->]]. apply c_dyn_strict in H. subst bs.
+    apply byte_of_to_N in E17. subst t. split; reflexivity.
+  - assert (Hm : forall X0 X4 X17 Y : option (content * bytes), match Byte.to_N t with 0 => X0 | 4 => X4 | 17 => X17 | _ => Y end = Y).
+    { intros. destruct (Byte.to_N t) as [|p]; [contradiction|].
+      repeat (destruct p as [p|p|]; try reflexivity; try contradiction). }
+    rewrite Hm. destruct (dec c_header bs) as [[h r1]|] eqn:E; [|discriminate].
+    intro H. apply omap_some in H. destruct H as [op [H ->]].
+    apply c_header_strict in E. apply dec_mop_strict in H. destruct H as [H1 [H2 H3]].
+    split.
+    + unfold enc_content. cbn [content_tag normalise]. rewrite H3, H2, b8_to_N. subst. cbn [app]. rewrite <- app_assoc. reflexivity.
+    + cbn [normalise]. rewrite H3. reflexivity.
+Qed.
+
+Lemma dec_group_strict bs g : dec_group bs = Some g -> enc_group g = bs /\ norm_group g = g.
+Proof.
+  unfold dec_group. destruct (take 32 bs) as [[b r]|] eqn:E; [|discriminate].
+  destruct (dec_many dec_content (length r) r) as [cs|] eqn:E2; [|discriminate].
+  intro H. injection H as <-. apply take_some in E. destruct E as [-> _].
+  unfold enc_group, norm_group. cbn.
+  assert (Hall : forall fuel bs cs, dec_many dec_content fuel bs = Some cs ->
+                 bs = concat (map enc_content cs) /\ map normalise cs = cs).
+  { clear. induction fuel as [|f IH]; intros bs cs H.
+    - destruct bs; [injection H as <-; split; reflexivity | discriminate].
+    - destruct bs as [|x xs]; [injection H as <-; split; reflexivity|].
+      cbn [dec_many] in H. destruct (dec_content (x :: xs)) as [[c r]|] eqn:E; [|discriminate].
+      destruct (dec_many dec_content f r) as [l'|] eqn:E2; [|discriminate]. injection H as <-.
+      apply dec_content_strict in E. destruct E as [E En]. apply IH in E2. destruct E2 as [E2 En2].
+      split; [rewrite E, E2; reflexivity | cbn; rewrite En, En2; reflexivity]. }
+  destruct (Hall _ _ _ E2) as [H1 H2]. split; [rewrite H1; reflexivity | rewrite H2; reflexivity].
+Qed.
